@@ -25,6 +25,7 @@ type Prog struct {
 	Funcs   map[string]*ssa.Function // canonical name -> function
 	CS      *ContractSet
 	loops   map[*ssa.Function]*loopInfo
+	descs   map[*ssa.Function]map[ssa.Value]string
 	Errors  []string
 }
 
@@ -376,6 +377,47 @@ type loopDesc struct {
 	stTyps []types.Type        // types stored through non-local pointers
 	stored map[*ssa.Alloc]bool // non-escaping allocs stored to in the loop
 	modVals []ssa.Value        // values whose reachable memory is modified by calls with a precise frame
+}
+
+// valueDescs gives every SSA value of fn a structural descriptor that does not
+// depend on source names: calls by callee and ordinal, everything else by
+// instruction kind and ordinal in block order. Used to keep contract clauses
+// that mention a local valid when the local is merely renamed in the source
+// (the `local` lines of a contract record the descriptors of its names).
+func (p *Prog) valueDescs(fn *ssa.Function) map[ssa.Value]string {
+	if d, ok := p.descs[fn]; ok {
+		return d
+	}
+	if p.descs == nil {
+		p.descs = map[*ssa.Function]map[ssa.Value]string{}
+	}
+	d := map[ssa.Value]string{}
+	p.descs[fn] = d
+	li := p.loopInfo(fn)
+	cnt := map[string]int{}
+	for _, b := range fn.Blocks {
+		for _, in := range b.Instrs {
+			v, ok := in.(ssa.Value)
+			if !ok {
+				continue
+			}
+			switch x := in.(type) {
+			case *ssa.Call:
+				d[v] = fmt.Sprintf("call:%s#%d", p.calleeName(x.Common()), li.callOrd[x])
+			case *ssa.Extract:
+				if td, ok := d[x.Tuple]; ok {
+					d[v] = fmt.Sprintf("extract%d:%s", x.Index, td)
+				}
+			}
+			if _, done := d[v]; done {
+				continue
+			}
+			k := fmt.Sprintf("%T", in)
+			cnt[k]++
+			d[v] = fmt.Sprintf("%s#%d", strings.TrimPrefix(k, "*ssa."), cnt[k])
+		}
+	}
+	return d
 }
 
 // loopCallFrame: for a call in a loop whose callee has a contract with an
